@@ -290,7 +290,10 @@ def _setup(interp):
         cur, vr = v["__cur"], v["values_read"]
         return [
             ("values_read-starts-at-0", Implies(k == 0, vr == 0)),
-            ("segment_index-tracks-the-segment", v["segment_index"] == ss + k),
+            # (if the code counts segments with the loop variable itself, e.g. enumerate(..., start_segment), there
+            #  is no carried counter: the for statement assigns it from the iteration number and the clause is vacuous)
+            ("segment_index-tracks-the-segment",
+             True if "segment_index" in v.get("__loop_targets__:segments", ()) else v["segment_index"] == ss + k),
             ("values_read-counts-delivered-plus-trimmed",
              And(vr >= cur - offset, Implies(vr > cur - offset, And(cur == end_index, vr >= v["length"])))),
             ("cursor-at-segment-boundary", Implies(offset <= end_index,
